@@ -361,11 +361,22 @@ class XPathContext:
         prod = [None] * dimension
         max_index = dimension - 1
 
+        # Values of the variables before the binding, to be restored when a range
+        # expression is resumed (it must not see the variables bound after it).
+        outer = {name: self.variables[name] for name in varnames if name in self.variables}
+        bound: dict[str, Any] = {}
+
         k = 0
         while True:
+            for name in varnames[k:]:
+                if name in outer:
+                    self.variables[name] = outer[name]
+                else:
+                    self.variables.pop(name, None)
+
             for value in iterators[k]:
                 try:
-                    self.variables[varnames[k]] = value
+                    self.variables[varnames[k]] = bound[varnames[k]] = value
                 except IndexError:
                     pass
 
@@ -377,6 +388,7 @@ class XPathContext:
                 break
             else:
                 if not k:
+                    self.variables.update(bound)  # leave the last bound values
                     return
                 iterators[k] = selectors[k](copy(self))
                 k -= 1
